@@ -115,7 +115,12 @@ Proof.
   destruct (admission wd (i_now inv) (i_offered inv) st []) as [[st1 c]|c] eqn:Ea.
   - destruct (admission_inv _ _ _ _ _ _ _ Hw Hi Ea) as [Hi1 _].
     assert (Ho0 : once_inv [] st1) by (split; [constructor|intros t []]).
-    destruct (i_load inv) as [[l ps']|];
+    destruct (load_pools inv) as [ps|c0] eqn:El.
+    2:{ clear - El. unfold load_pools in El. destruct (i_load inv) as [lds|]; [|discriminate]. intros Hc. injection Hc as ->.
+        revert El. generalize (i_pools inv). induction lds as [|[[[ty mid] pid] wid] rest IH]; intros ps El; cbn [apply_load] in El; [discriminate|].
+        destruct (ty =? 1); [|eapply IH; eassumption].
+        destruct (find_worker pid wid ps) as [w|]; [|discriminate].
+        destruct (zassoc mid (w_loaded w)); [|discriminate]. destruct (zassoc mid (w_palloc w)); [|discriminate]. eapply IH; eassumption. }
     match goal with |- context [infer_pools ?a ?b ?c ?d ?e] =>
       pose proof (infer_pools_fuel wd a b c d e Hw Hp Hi1 (Forall_nil _) Ho0) as Hn; destruct (infer_pools a b c d e) as [[st2 bs]|c'] end;
     try discriminate; intros Hc; injection Hc as ->; apply Hn; reflexivity.
@@ -128,7 +133,7 @@ Qed.
 (* the hypothesis is needed: with a batch size 0 the loop re-queues the model for ever (whatever the fuel) *)
 Example zero_batch_never_terminates :
   let st := [mkM 1 [(mkS 1 0 10 [], [mkT 7 1 100])] [(mkT 7 1 100, 1)]] in
-  forall fuel acc, infer_loop fuel false 0 1 (mkW 1 [] [(1, 0)] []) st [(1, [mkS 1 0 10 []])] acc = Err 99.
+  forall fuel acc, infer_loop fuel false 0 1 (mkW 1 [] [(1, 0)] [] []) st [(1, [mkS 1 0 10 []])] acc = Err 99.
 Proof.
   cbv zeta. induction fuel as [|f IH]; intros acc; [reflexivity|].
   cbn [infer_loop]. vm_compute (cw_not_loaded _). cbv iota. vm_compute (filter _ _). cbv iota.
